@@ -38,7 +38,7 @@ type c17Op struct {
 
 func TestC17(t *testing.T) {
 	r, e := start(t, "C17",
-		"random histories (<= 12 operations quick, <= 30 thorough) of write(p,s), write(p,s,false), write(p,s,true) (the flag spelled as a literal, a variable, a comparison or exists(p) where that has the wanted value), read(p) (only where the model says p exists) and exists(p) over 2-4 paths drawn from {plain, sub-directory, blank, double blank, leading dash, ;, *, $, ', leading blank, &} and contents from {neutral, empty, edge blanks, blank runs, quotes, $, $(cmd), backquote, backslash, glob, -n, tab, shell metacharacters, #, embedded newline, !, %}; the whole history is one generated program (a third of the operations wrapped in a construct that runs them once: taken branch, else branch, one-pass loop, switch case, branch inside a loop), values literal or held in variables read from stdin, half the time executed inside a function with paths/contents as parameters. Oracle: model map[path][]line: file bytes = lines joined by newline + newline, read = lines joined, exists = key present; the sandbox afterwards holds exactly the model's files. Non-trivial = append after overwrite after append on one path, or >= 2 paths with a non-plain path or content; distinct by history.",
+		"random histories (<= 12 operations quick, <= 30 thorough) of write(p,s), write(p,s,false), write(p,s,true) (the flag spelled as a literal, a variable, a comparison or exists(p) where that has the wanted value), read(p) (only where the model says p exists) and exists(p) over 2-4 paths drawn from {plain, sub-directory, blank, double blank, leading dash, ;, *, $, ', leading blank, &} and contents from {neutral, empty, edge blanks, blank runs, quotes, $, $(cmd), backquote, backslash, glob, -n, tab, shell metacharacters, #, embedded newline, !, %}; the whole history is one generated program (a third of the operations wrapped in a construct that runs them once: taken branch, else branch, one-pass loop, switch case, branch inside a loop), values literal or held in variables read from stdin, half the time executed inside a function with paths/contents as parameters; a third of the operations are performed by small helper functions (hwrite, hread, ...) called from the history instead of directly. Oracle: model map[path][]line: file bytes = lines joined by newline + newline, read = lines joined, exists = key present; the sandbox afterwards holds exactly the model's files. Non-trivial = append after overwrite after append on one path, or >= 2 paths with a non-plain path or content; distinct by history.",
 		[]string{"reading a missing file is outside the statement (never generated)", "contents ending in a newline are not generated (read strips trailing newlines by definition)", "values containing $, backquote, double quote or backslash are supplied at run time through input(): as source literals they fall under the listed C08 finding"})
 	defer r.Flush()
 	maxOps := e.Pick(12, 30)
@@ -126,6 +126,7 @@ func TestC17(t *testing.T) {
 		expOut := ""
 		cur := map[string][]string{}
 		flagVars := false
+		usesHelpers := false
 		flagExpr := func(op c17Op, want bool, pe string) string {
 			_, there := cur[c17Paths[op.path].p]
 			switch {
@@ -148,6 +149,13 @@ func TestC17(t *testing.T) {
 				r.Class(fmt.Sprintf("wrapped:%d", wrap))
 			}
 			flush := func() { bodyAll.WriteString(wrapInBlock(body.String(), wrap, opIdx)) }
+			// the operation performed directly or by a helper function called from here (a caller must not assume that
+			// the files it knows are untouched by the functions it calls)
+			via := gen.Uniform(0, 2).Draw(t, "via-helper") == 0
+			if via {
+				usesHelpers = true
+				r.Class("via-helper-function")
+			}
 			if op.kind == "exists-dir" {
 				body.WriteString("print(\"exists\", exists(\"sub\"), exists(\"nosuchdir\"))\n")
 				flush()
@@ -159,21 +167,41 @@ func TestC17(t *testing.T) {
 			switch op.kind {
 			case "write":
 				ce := valueRef("c", op.content, c17Contents[op.content].s)
-				body.WriteString("write(" + pe + ", " + ce + ")\n")
+				if via {
+					body.WriteString("hwrite(" + pe + ", " + ce + ")\n")
+				} else {
+					body.WriteString("write(" + pe + ", " + ce + ")\n")
+				}
 				cur[path] = []string{c17Contents[op.content].s}
 			case "overwrite-false":
 				ce := valueRef("c", op.content, c17Contents[op.content].s)
-				body.WriteString("write(" + pe + ", " + ce + ", " + flagExpr(op, false, pe) + ")\n")
+				if via {
+					body.WriteString("hwritef(" + pe + ", " + ce + ", " + flagExpr(op, false, pe) + ")\n")
+				} else {
+					body.WriteString("write(" + pe + ", " + ce + ", " + flagExpr(op, false, pe) + ")\n")
+				}
 				cur[path] = []string{c17Contents[op.content].s}
 			case "append":
 				ce := valueRef("c", op.content, c17Contents[op.content].s)
-				body.WriteString("write(" + pe + ", " + ce + ", " + flagExpr(op, true, pe) + ")\n")
+				if via {
+					body.WriteString("hwritef(" + pe + ", " + ce + ", " + flagExpr(op, true, pe) + ")\n")
+				} else {
+					body.WriteString("write(" + pe + ", " + ce + ", " + flagExpr(op, true, pe) + ")\n")
+				}
 				cur[path] = append(cur[path], c17Contents[op.content].s)
 			case "read":
-				body.WriteString("print(\"<\" + read(" + pe + ") + \">\")\n")
+				if via {
+					body.WriteString("print(\"<\" + hread(" + pe + ") + \">\")\n")
+				} else {
+					body.WriteString("print(\"<\" + read(" + pe + ") + \">\")\n")
+				}
 				expOut += "<" + strings.Join(cur[path], "\n") + ">\n"
 			case "exists":
-				body.WriteString("print(\"exists\", exists(" + pe + "))\n")
+				if via {
+					body.WriteString("print(\"exists\", hexists(" + pe + "))\n")
+				} else {
+					body.WriteString("print(\"exists\", exists(" + pe + "))\n")
+				}
 				if _, ok := cur[path]; ok {
 					expOut += "exists 1\n"
 				} else {
@@ -185,6 +213,9 @@ func TestC17(t *testing.T) {
 		var src strings.Builder
 		if flagVars {
 			src.WriteString("fyes := true\nfno := 1 > 2\n")
+		}
+		if usesHelpers {
+			src.WriteString("func hwrite(p string, c string) {\n\twrite(p, c)\n}\nfunc hwritef(p string, c string, a bool) {\n\twrite(p, c, a)\n}\nfunc hread(p string) string {\n\treturn read(p)\n}\nfunc hexists(p string) bool {\n\treturn exists(p)\n}\n")
 		}
 		src.WriteString(decl.String())
 		if inFunc {
